@@ -121,7 +121,11 @@ def And(*xs):
     if any(x is False for x in xs):
         return False
     ts = [B(x) for x in xs if x is not True]
-    return as_bool(z3.And(*ts)) if ts else True
+    if not ts:
+        return True
+    # no z3.simplify here: it would fuse several regular memberships of one string into one intersection,
+    # which the solvers handle far worse than the separate conjuncts
+    return ts[0] if len(ts) == 1 else z3.And(*ts)
 
 
 def Or(*xs):
@@ -130,7 +134,9 @@ def Or(*xs):
     if any(x is True for x in xs):
         return True
     ts = [B(x) for x in xs if x is not False]
-    return as_bool(z3.Or(*ts)) if ts else False
+    if not ts:
+        return False
+    return ts[0] if len(ts) == 1 else z3.Or(*ts)
 
 
 def Not(x):
